@@ -9,6 +9,7 @@ import (
 	"github.com/glebziz/fs_db"
 	"github.com/glebziz/fs_db/internal/model"
 	"github.com/glebziz/fs_db/internal/utils/ptr"
+	"github.com/glebziz/fs_db/internal/utils/vhook"
 )
 
 func (u *UseCase) GetKeys(ctx context.Context) ([]string, error) {
@@ -33,6 +34,7 @@ func (u *UseCase) GetKeys(ctx context.Context) ([]string, error) {
 	if err != nil {
 		return nil, fmt.Errorf("file repository get files: %w", err)
 	}
+	vhook.At("store.getkeys.files")
 
 	keys := make([]string, 0, len(files))
 	for _, file := range files {
